@@ -143,6 +143,8 @@ func DefaultFunding(r *rand.Rand, double bool) (map[string]*big.Int, *big.Int) {
 	}
 	f[LongAcct()] = big.NewInt(77_000_000)
 	f[VeryLongAcct()] = big.NewInt(55_000_000)
+	f[TinyAcct()] = big.NewInt(33_000_000)
+	f[HugeAcct()] = big.NewInt(11_000_000)
 	allow := new(big.Int).Add(Two255, Two128)
 	if double {
 		allow = new(big.Int).Lsh(Max256, 8)
